@@ -41,7 +41,11 @@ func harnessC13Failures() {
 		opts = append(opts, WithPersistenceErrorHandler(onErr))
 	}
 	if withTimeout {
-		opts = append(opts, WithPersistenceTimeout(time.Second))
+		d := time.Second
+		if vBool() {
+			d = time.Nanosecond // a budget that is used up before the store is even reached
+		}
+		opts = append(opts, WithPersistenceTimeout(d))
 	}
 	if withObs {
 		opts = append(opts, WithObservability(&c20Obs{}))
@@ -49,6 +53,9 @@ func harnessC13Failures() {
 	bus := New(opts...)
 	if handlerViaSetter {
 		bus.SetPersistenceErrorHandler(onErr)
+	}
+	if !withHandler && vBool() {
+		bus.SetPersistenceErrorHandler(nil) // explicitly no handler
 	}
 	busRef = bus
 	var gotA []int
